@@ -20,7 +20,7 @@ RULE = (
     'non-trivial = depth >= 2 or a non-value outcome or an action sequence of >= 2 operations; distinct = SHA-1 of the case JSON'
 )
 ASSUMPTIONS = [
-    'cross-thread hand-offs are delivered as event-loop callbacks at generated positions; data races inside CPython or kiwipy are out of scope',
+    'cross-thread hand-offs are delivered as event-loop callbacks at generated positions; data races inside CPython or kiwipy are out of scope; a call made from a real second thread (joined before the harness looks) must wake the loop (counted _write_to_self calls)',
     'a handler error in _schedule_rpc is deliberately re-raised as RuntimeError(...) from exc: compared through __cause__',
 ]
 BUDGET = {
@@ -46,6 +46,9 @@ def enumerate_cases(tier, scope):
                         yield {'kind': 'chain', 'adapter': adapter, 'depth': depth, 'terminal': terminal, 'order': list(order), 'drain': drain}
     for fn in ('value', 'raise', 'gate-value', 'gate-raise'):
         yield {'kind': 'create_task', 'fn': fn}
+        yield {'kind': 'create_task', 'fn': fn, 'thread': True}
+    for what in ('rpc', 'broadcast', 'task'):
+        yield {'kind': 'comm_thread', 'what': what}
     for fn in ('value', 'raise'):
         yield {'kind': 'rpc_plain', 'fn': fn}
     ops = ['run', 'cancel', 'run']
@@ -71,7 +74,7 @@ def _cases(draw, tier):
         }
     if kind == 'action':
         return {'kind': 'action', 'fn': draw(st.sampled_from(['value', 'raise'])), 'ops': draw(st.lists(st.sampled_from(['run', 'cancel']), min_size=1, max_size=5))}
-    return {'kind': 'create_task', 'fn': draw(st.sampled_from(['value', 'raise', 'gate-value', 'gate-raise']))}
+    return {'kind': 'create_task', 'fn': draw(st.sampled_from(['value', 'raise', 'gate-value', 'gate-raise'])), 'thread': draw(st.booleans())}
 
 
 def strategy(tier):
@@ -183,7 +186,21 @@ def _run_create_task(case, v):
                     raise error
                 return value
 
-            fut = futures.create_task(coro, loop)
+            if case.get('thread'):
+                # the adapters exist to be called from communicator threads: do so (the thread is joined before the
+                # harness looks, so this is deterministic) and require that the idle loop is woken up
+                import threading
+
+                box = {}
+                before = loop.wakeups
+                worker = threading.Thread(target=lambda: box.setdefault('fut', futures.create_task(coro, loop)))
+                worker.start()
+                worker.join()
+                fut = box['fut']
+                if loop.wakeups <= before:
+                    v('loop-not-woken', 'create_task() called from another thread did not wake the event loop: an idle loop would not run the coroutine')
+            else:
+                fut = futures.create_task(coro, loop)
         loop.drain()
         if case['fn'].startswith('gate'):
             if fut.done():
@@ -204,6 +221,66 @@ def _run_create_task(case, v):
     finally:
         for task in loop.all_tasks:
             task._log_destroy_pending = False
+        loop.shutdown()
+        asyncio.set_event_loop(None)
+
+
+def _run_comm_thread(case, v):
+    """A message delivered by a communicator thread through LoopCommunicator must wake the loop and be handled."""
+    import threading
+
+    loop = StepLoop()
+    asyncio.set_event_loop(loop)
+    try:
+        inner = kiwipy.LocalCommunicator()
+        comm = communications.LoopCommunicator(inner, loop)
+        seen = []
+
+        def rpc(_comm, msg):
+            seen.append(('rpc', msg))
+            return 'reply'
+
+        def bcast(_comm, body, sender, subject, correlation_id):
+            seen.append(('broadcast', body))
+
+        def task(_comm, msg):
+            seen.append(('task', msg))
+            return 'done'
+
+        comm.add_rpc_subscriber(rpc, 'r1')
+        comm.add_broadcast_subscriber(bcast, 'b1')
+        comm.add_task_subscriber(task, 't1')
+        before = loop.wakeups
+        box = {}
+
+        def send():
+            if case['what'] == 'rpc':
+                box['fut'] = comm.rpc_send('r1', 'hello')
+            elif case['what'] == 'broadcast':
+                comm.broadcast_send('hello', sender='s', subject='subj')
+            else:
+                box['fut'] = comm.task_send('hello')
+
+        worker = threading.Thread(target=send)
+        worker.start()
+        worker.join()
+        if loop.wakeups <= before:
+            v('loop-not-woken', f"a {case['what']} message delivered from another thread did not wake the event loop")
+        loop.drain()
+        if [s[0] for s in seen] != [case['what']]:
+            v('message-not-handled', f'subscriber calls: {seen}')
+        if 'fut' in box:
+            fut = box['fut']
+            for _ in range(4):
+                if fut.done() and isinstance(fut.result(), kiwipy.Future):
+                    fut = fut.result()
+                    loop.drain()
+            want = 'reply' if case['what'] == 'rpc' else 'done'
+            if not fut.done() or fut.result() != want:
+                v('wrong-outcome', f"reply {(fut.result() if fut.done() else 'pending')!r}, expected {want!r}")
+    finally:
+        for task_ in loop.all_tasks:
+            task_._log_destroy_pending = False
         loop.shutdown()
         asyncio.set_event_loop(None)
 
@@ -312,7 +389,11 @@ def execute(case):
     elif kind == 'create_task':
         _run_create_task(case, v)
         nontrivial = case['fn'] != 'value'
-        classes = ['create_task:' + case['fn']]
+        classes = ['create_task:' + case['fn'] + (':thread' if case.get('thread') else '')]
+    elif kind == 'comm_thread':
+        _run_comm_thread(case, v)
+        nontrivial = True
+        classes = ['comm_thread:' + case['what']]
     elif kind == 'rpc_plain':
         _run_rpc_plain(case, v)
         nontrivial = case['fn'] != 'value'
